@@ -94,6 +94,33 @@ func c11GenArith(t *rapid.T) c11Call {
 	if c.Cmd == "/" {
 		lo = 1 // "/" without arguments is "cd /", not arithmetic
 	}
+	// Machine-int boundary shape: a running value of +-1 or +-2 meets an int at
+	// the edge of the machine range (and the other way round), the combinations
+	// where hand-written overflow checks of a fast path are usually blind.
+	if rapid.IntRange(0, 3).Draw(t, "?boundary-shape") == 0 {
+		units := []int64{1, -1, -1, 1, 2, -2, 0}
+		bounds := []int64{math.MinInt64, math.MaxInt64, math.MinInt64 + 1, math.MaxInt64 - 1, 1 << 62, -(1 << 62),
+			1 << 31, -(1 << 31), 1 << 32, 3037000500, -3037000500, 3037000499, math.MinInt64 / 2, math.MaxInt64/2 + 1}
+		nu := rapid.IntRange(0, 2).Draw(t, "nunits")
+		for i := 0; i < nu; i++ {
+			c.Args = append(c.Args, c11IntNum(rapid.SampledFrom(units[:6]).Draw(t, "unit")))
+		}
+		nb := rapid.IntRange(1, 2).Draw(t, "nbounds")
+		for i := 0; i < nb; i++ {
+			c.Args = append(c.Args, c11IntNum(rapid.SampledFrom(bounds).Draw(t, "bound")))
+		}
+		if rapid.Bool().Draw(t, "?tail") {
+			c.Args = append(c.Args, c11IntNum(rapid.SampledFrom(units).Draw(t, "tailunit")))
+		}
+		if c.Cmd == "/" {
+			for i := 1; i < len(c.Args); i++ {
+				if c.Args[i].Text == "0" {
+					c.Args[i] = c11IntNum(-1)
+				}
+			}
+		}
+		return c
+	}
 	n := rapid.IntRange(lo, 6).Draw(t, "n")
 	for i := 0; i < n; i++ {
 		c.Args = append(c.Args, c11Exact(t, "arg"))
